@@ -38,7 +38,7 @@ def variant_forms(rng, spec):
     for a in spec['assets']:
         if rng.random() < 0.5:
             a['_date_form'] = gen.pick(rng, ['datetime', 'timestamp', 'date'] + (['aware_utc', 'aware_utc', 'aware_other'] if spec['grid'].get('tz') else []))
-        if rng.random() < 0.3:
+        if rng.random() < 0.3 and '_container' not in a:
             a['_container'] = gen.pick(rng, ['dtindex', 'array', 'list', 'np_D', 'np_h', 'np_m', 'np_ns'])
     return spec
 
@@ -63,6 +63,11 @@ def add_dicts(rng, spec):
                 a['max_cap'] = {'start': [far0, mid], 'end': [mid, str(pd.Timestamp(g['end']) + pd.Timedelta(days=400))], 'values': [hi, max(lo, hi * 0.5)]}
             if rng.random() < 0.3:
                 a['extra_costs'] = {'start': [far0], 'values': [0.4]}
+            elif rng.random() < 0.25:
+                # an equidistant list of period starts (yearly steps around the horizon), implicit ends - typically handed over as a DatetimeIndex
+                y0 = (pd.Timestamp(g['start']) - pd.Timedelta(days=730)).normalize()
+                a['extra_costs'] = {'start': [str(y0 + pd.Timedelta(days=365 * q)) for q in range(5)], 'values': [0.1, 0.2, 0.3, 0.4, 0.5]}
+                a['_container'] = 'dtindex'
     return spec
 
 
